@@ -32,6 +32,7 @@ def main():
     ap.add_argument("--tier", default="quick")
     ap.add_argument("--keep", default=None)
     ap.add_argument("--workers", default="16")
+    ap.add_argument("--budget-s", default=None, help="wall budget handed to the check (when the machine is shared)")
     args = ap.parse_args()
     seed = pathlib.Path(args.seed).resolve()
     meta = json.loads((seed / "meta.json").read_text())
@@ -76,7 +77,8 @@ def main():
         caught = {}
         for chk in ([] if args.suite_only else checks):
             cenv = dict(os.environ, VERIF_REPO=str(base), VERIF_WORKERS=args.workers)
-            cp = sh([str(VERIF / "bin" / "check"), chk, "--tier", args.tier, "--no-evidence"], env=cenv, timeout=3000)
+            cp = sh([str(VERIF / "bin" / "check"), chk, "--tier", args.tier, "--no-evidence"]
+                    + (["--budget-s", str(args.budget_s)] if args.budget_s else []), env=cenv, timeout=3000)
             viol = [ln for ln in cp.stdout.splitlines() if ln.startswith("VIOLATION property=")]
             first = [ln for ln in cp.stdout.splitlines() if ln.startswith("violation:") or ln.startswith("  detail:")][:2]
             for ln in viol:
